@@ -47,7 +47,7 @@ func (c12) Gen(r *sim.Rand, tier string, run uint64) *sim.Scenario {
 		sc.Cfg["kind"] = 0
 		genStartState(r, sc.Cfg, 0)
 		sc.Ops = genProgram(r, r.Range(5, 50), byte(sc.Cfg["p"]), byte(sc.Cfg["e"]))
-		sc.Cfg["budgetmode"] = int64(r.Intn(4))
+		sc.Cfg["budgetmode"] = int64(r.Intn(5))
 		sc.Cfg["budget"] = int64(sim.PickInt(r, 0, 1, 2, 3, 50, 400, 1500, r.Range(0, 2500)))
 		sc.Cfg["delta"] = int64(r.Range(-1, 1))
 		sc.Cfg["targetmode"] = int64(r.Intn(6))
@@ -215,8 +215,30 @@ func c12sys(sc *sim.Scenario, env *sim.Env) *sim.Violation {
 			budget = uint64(sum + delta)
 		}
 	}
-	if budget > 6000 {
+	huge := false
+	if sc.C("budgetmode") == 4 {
+		// a budget beyond 32 bits with a target that is reached: the budget is a uint64 and
+		// must not be narrowed on the way
+		reach := false
+		for _, r := range pre {
+			if r.R.PCL() == target {
+				reach = true
+			}
+		}
+		if reach || start == target {
+			budget = 1<<32 + uint64(sc.C("budget")&0xFF)
+			huge = true
+			st.Probe("budget_beyond_32_bits")
+		}
+	}
+	if budget > 6000 && !huge {
 		budget = 6000
+	}
+	stepBound := int(budget) + 2
+	wdBound := (budget + 10) * 4000
+	if huge {
+		stepBound = len(pre) + 2
+		wdBound = uint64(len(pre)+10) * 16 * 4000
 	}
 
 	// reference twin: every instruction consumes >= 1 cycle, so at most `budget` instructions
@@ -225,9 +247,9 @@ func c12sys(sc *sim.Scenario, env *sim.Env) *sim.Violation {
 		return &sim.Violation{Oracle: "HARNESS_PANIC", Msg: err.Error()}
 	}
 	loadSystem(smR, sc)
-	recs, refOnTarget, refPanic, refBroke := refRun(smR, target, budget, int(budget)+2)
+	recs, refOnTarget, refPanic, refBroke := refRun(smR, target, budget, stepBound)
 	regsR := cpuA{&smR.S.CPU}.Regs()
-	refStalled := len(recs) > int(budget)
+	refStalled := !huge && len(recs) > int(budget)
 
 	// world A: the real RunUntil, with observers
 	smA, err := NewSysMachine(env, 0, mkHole())
@@ -300,7 +322,7 @@ func c12sys(sc *sim.Scenario, env *sim.Env) *sim.Violation {
 	}
 	// liveness: every instruction consumes >= 1 cycle, so RunUntil executes at most `budget`
 	// instructions; 4000 yields per instruction is far above the slowest traced instruction
-	env.SetWatchdog((budget + 10) * 4000)
+	env.SetWatchdog(wdBound)
 	var ret bool
 	pA, pvA, wd := sim.RecoverWD(func() { ret = s.RunUntil(target, budget) })
 	env.SetWatchdog(0)
@@ -310,7 +332,7 @@ func c12sys(sc *sim.Scenario, env *sim.Env) *sim.Violation {
 	env.ObsU64(regsA.Hash())
 	if wd {
 		return &sim.Violation{Oracle: "rununtil_no_termination", Step: -1,
-			Msg: fmt.Sprintf("RunUntil(target=%06x, budget=%d) did not return within %d yield points (AllCycles=%d, PC=%06x): an instruction that consumes no cycles keeps the loop alive", target, budget, (budget+10)*4000, regsA.AllCycles, regsA.PCL())}
+			Msg: fmt.Sprintf("RunUntil(target=%06x, budget=%d) did not return within %d yield points (AllCycles=%d, PC=%06x): an instruction that consumes no cycles keeps the loop alive", target, budget, wdBound, regsA.AllCycles, regsA.PCL())}
 	}
 	if refStalled {
 		return &sim.Violation{Oracle: "step_cycles_lt_1", Step: -1, Msg: fmt.Sprintf("the bare-Step twin executed %d instructions without consuming %d cycles: some Step reported 0 cycles", len(recs), budget)}
